@@ -119,6 +119,12 @@ def pad_with(vector, pad_width, iaxis, kwargs):
     vector[-pad_width[1]:] = pad_value
 
 
+def peraxis(c):
+    """Stack cases whose padding constant / ramp end value is given PER AXIS, numpy.pad's ((before, after), ...) form: the
+    pair that counts is the time axis' (only its `after` is ever used), the others carry other numbers."""
+    return c["op"] == "stack" and c.get("cval", 0) != 0 and not c.get("callable") and len(c["shape"]) >= 2 and (c["V"] + len(c["shape"])) % 2 == 0
+
+
 def pad_kwargs(c):
     """keyword arguments handed through to numpy.pad"""
     mode = c["pad"] if c["op"] == "stack" else c["mode"]
@@ -126,12 +132,23 @@ def pad_kwargs(c):
         return {"padder": c["cval"]}
     if c.get("cval", 0) == 0:
         return {}
-    return {"constant_values": c["cval"]} if mode == "constant" else {"end_values": c["cval"]}
+    val = c["cval"]
+    if peraxis(c):
+        nd = len(c["shape"])
+        ta = c["time_axis"] % nd
+        val = tuple((c["cval"] + 3, c["cval"]) if a == ta else (c["cval"] + 5 + a, c["cval"] + 7 + a) for a in range(nd))
+    return {"constant_values": val} if mode == "constant" else {"end_values": val}
 
 
 def build(c):
+    # (half of the objects are built with POSITIONAL arguments in the documented order)
+    positional = (c.get("V", c.get("K", 0)) + len(c["shape"])) % 2 == 1
     if c["op"] == "stack":
+        if positional:
+            return post.Stack(c["V"], c["time_axis"], None if c["pad"] == "none" else c["pad"], **pad_kwargs(c))
         return post.Stack(c["V"], time_axis=c["time_axis"], pad_mode=None if c["pad"] == "none" else c["pad"], **pad_kwargs(c))
+    if positional:
+        return post.Deltas(c["K"], c["target_axis"], c["cat"], c["W"], pad_with if c.get("callable") else c["mode"], **pad_kwargs(c))
     return post.Deltas(c["K"], target_axis=c["target_axis"], concatenate=c["cat"], context_window=c["W"],
                        pad_mode=pad_with if c.get("callable") else c["mode"], **pad_kwargs(c))
 
@@ -211,7 +228,7 @@ def instance_reuse(run, cases, rows, nprng):
     groups = {}
     for c, row in zip(cases, rows):
         if c["op"] == "stack":
-            key = ("stack", c["V"], c["time_axis"], c["pad"], c.get("cval", 0))
+            key = ("stack", c["V"], c["time_axis"], c["pad"], c.get("cval", 0), len(c["shape"]) if peraxis(c) else 0)
         else:
             key = ("deltas", c["K"], c["target_axis"], c["cat"], c["W"], c["mode"], c.get("cval", 0), bool(c.get("callable")))
         groups.setdefault(key, []).append((c, row))
